@@ -74,6 +74,21 @@ initadd(struct initparser *p, struct init *new)
 	p->last = &new->next;
 }
 
+/* a brace-enclosed list initializes the whole subobject: it replaces every earlier initializer inside it */
+static void
+initclear(struct initparser *p, unsigned long long start, unsigned long long end)
+{
+	struct init **init, *old;
+
+	for (init = &p->init; (old = *init);) {
+		if (start <= old->start && old->end <= end)
+			*init = old->next;
+		else
+			init = &old->next;
+	}
+	p->last = &p->init;
+}
+
 static void
 subobj(struct initparser *p, struct type *t, unsigned long long off)
 {
@@ -252,6 +267,8 @@ parseinit(struct scope *s, struct type *t)
 				assert(p.cur->type->kind == TYPEARRAY);
 				focus(&p);
 			}
+			if (p.init && p.sub->type->size && !(p.sub->type->prop & PROPSCALAR))
+				initclear(&p, p.sub->offset, p.sub->offset + p.sub->type->size);
 			/* an empty initializer stands for the subobject the cursor is at, like any other */
 			if (consume(TRBRACE)){
 				if (p.sub->type->incomplete)
